@@ -25,6 +25,9 @@ def inputs(ctx, quick, rng):
     from .. import extract
     kws = sorted(extract.all_keyword_words())
     texts += ['a %s b' % w.lower() for w in kws] + ['select 5 %s 2 from t' % w for w in (kws[::3] if quick else kws)]
+    if PID == 'C03':
+        from .. import infixrun
+        texts += infixrun.assignment_texts(ctx, 1500 if quick else 12000, ctx.seed + 17, rng)
     fx = repo_texts()
     texts += [t[:300] for t in fx] + [t[i:i + 150] for t in fx for i in range(0, min(len(t), 1500), 150)]
     return texts
